@@ -7,6 +7,7 @@ mod scan;
 mod util;
 mod words;
 mod linkpass;
+mod unsafe_sites;
 
 fn main() {
     let args: Vec<String> = std::env::args().collect();
@@ -20,6 +21,7 @@ fn main() {
         "scan" => scan::main(rest),
         "linkpass" => linkpass::main(rest),
         "classify" => linkpass::classify(rest),
+        "unsafe" => unsafe_sites::main(rest),
         _ => {
             eprintln!("usage: fp_inproc fsm|words|rdh|payload|scan|linkpass|classify ...");
             2
